@@ -162,10 +162,11 @@ def check(db, rep):
 
 
 def _maxpart_definedness(db, rep):
-    """r7: OpMaxPart::IsCorrectlyDefined evaluated for every kind of selected constituent: only base and constant sets are exempt from the
-    'all inputs selected' test; a structure, term, function, ... whose inputs are not all selected makes the selection inadmissible."""
+    """r7: OpMaxPart::IsCorrectlyDefined evaluated for every kind of selected constituent: a selected constituent of any kind whose inputs are
+    not all selected makes the selection inadmissible. (A base or constant set normally has no definition and so no inputs; one that carries
+    a definition - an error state the property includes - is not exempt: its definition would mention names the result does not contain.)"""
     from engine.evalmini import Interp, Obj, OutOfFragment, NOT_HANDLED, enum_values
-    r7 = rep.rule('r7', 'SELECTION: a maximal-part selection is admissible iff it is non-empty, every selected constituent exists and, unless it is a base or constant set, all its direct inputs are selected', 1)
+    r7 = rep.rule('r7', 'SELECTION: a maximal-part selection is admissible iff it is non-empty, every selected constituent exists and all its direct inputs are selected (whatever its kind)', 1)
     f = db.fn(OPS + 'OpMaxPart::IsCorrectlyDefined', required=False)
     if f is None:
         r7.broken('anchor vanished: OpMaxPart::IsCorrectlyDefined')
@@ -189,7 +190,7 @@ def _maxpart_definedness(db, rep):
                         return NOT_HANDLED
                     this = Obj(arguments=[5], schema=Obj(__kind__='schema'))
                     res = Interp(db, on_call=on_call).call(f, [], this)
-                    want = exists and (kind in ('base', 'constant') or closed)
+                    want = exists and closed             # whatever the kind: the inputs come from the definition text, and a base set without one has none
                     if bool(res) != want and bad is None:
                         bad = 'selection {%s constituent%s%s} is %s' % (kind, '' if exists else ' that does not exist', '' if closed else ' whose inputs are not all selected', 'accepted' if res else 'refused')
         res = Interp(db, on_call=lambda *a: NOT_HANDLED).call(f, [], Obj(arguments=[], schema=Obj()))
@@ -218,10 +219,12 @@ def renumber_evaluated(db, rule):
         return
 
     def scenario(csts):
-        recs = {i + 1: Obj(uid=i + 1, alias=a.encode(), type=ord(a[0]), definition=[m.encode() for m in ms]) for i, (a, ms) in enumerate(csts)}
+        FIELDS = ('definition', 'convention', 'term', 'text')
+        norm = lambda ms: ms if isinstance(ms, dict) else {'definition': ms}
+        recs = {i + 1: Obj(uid=i + 1, alias=a.encode(), type=ord(a[0]), **{f_: [m.encode() for m in norm(ms).get(f_, [])] for f_ in FIELDS}) for i, (a, ms) in enumerate(csts)}
         old_alias = {u: bytes(r['alias']) for u, r in recs.items()}
         resolve = {bytes(r['alias']): u for u, r in recs.items()}
-        before = {u: [resolve.get(bytes(m)) for m in r['definition']] for u, r in recs.items()}
+        before = {(u, f_): [resolve.get(bytes(m)) for m in r[f_]] for u, r in recs.items() for f_ in FIELDS}
         taken = set()
 
         def on_call(it, fn, n, env):
@@ -254,12 +257,30 @@ def renumber_evaluated(db, rule):
             if last == 'CreateTranslator':
                 return Obj(__kind__='translator', m={bytes(k_): bytes(v_) for k_, v_ in a()[0].items()})
             if last == 'SubstitueAliases':
+                m = a()[0]['m']
                 if 'Schema' in cs:
-                    m = a()[0]['m']
                     for r in recs.values():
                         r['alias'] = m.get(bytes(r['alias']), bytes(r['alias']))
-                        r['definition'] = [m.get(bytes(x), bytes(x)) for x in r['definition']]
+                        for f_ in ('definition', 'convention'):
+                            r[f_] = [m.get(bytes(x), bytes(x)) for x in r[f_]]
+                else:
+                    for r in recs.values():
+                        for f_ in ('term', 'text'):
+                            r[f_] = [m.get(bytes(x), bytes(x)) for x in r[f_]]
                 return None
+            if last in ('At', 'GetText') and cs.startswith(S) and n.get('args'):
+                return recs[a()[0]]                                   # the text side of the same record
+            if last == 'Text' and 'LexicalTerm' in cs and 'obj' in n:
+                return ev(n['obj'])
+            if last == 'Referals' and 'obj' in n:
+                m_ = fn.strip(Sx[n['obj']])
+                if m_ is not None and m_['k'] == 'MemberExpr' and (m_.get('qn') or '').endswith('TextConcept::definition'):
+                    base = ev(m_['c'][0])
+                    while isinstance(base, tuple) and len(base) == 2 and base[0] == 'ptr':
+                        base = base[1]
+                    return set(bytes(x) for x in base['text'])
+                v_ = ev(n['obj'])
+                return set(bytes(x) for x in v_) if isinstance(v_, list) else set()
             if last == 'ExtractUGlobals' and a():
                 return set(bytes(x) for x in a()[0]) if isinstance(a()[0], list) else set()
             if last == 'FindAlias':
@@ -281,12 +302,14 @@ def renumber_evaluated(db, rule):
         if len(set(new_alias.values())) != len(new_alias):
             return 'renumbering %s gives two constituents the same alias: %s' % (csts, sorted(x.decode() for x in new_alias.values()))
         now = {v: u for u, v in new_alias.items()}
+        WHAT = {'definition': 'definition', 'convention': 'convention', 'term': 'term (a text reference)', 'text': 'text definition (a text reference)'}
         for u, r in recs.items():
-            for m, was in zip(r['definition'], before[u]):
+          for f_ in FIELDS:
+            for m, was in zip(r[f_], before[(u, f_)]):
                 got = now.get(bytes(m))
                 if got != was:
-                    return 'renumbering %s: in the definition of %s (now %s) a mention that %s now reads %s, which %s' % (
-                        [(a_, ms) for a_, ms in csts], old_alias[u].decode(), new_alias[u].decode(),
+                    return 'renumbering %s: in the %s of %s (now %s) a mention that %s now reads %s, which %s' % (
+                        [(a_, ms) for a_, ms in csts], WHAT[f_], old_alias[u].decode(), new_alias[u].decode(),
                         ('denoted ' + old_alias[was].decode()) if was else 'denoted no constituent (its constituent had been erased)', bytes(m).decode(),
                         ('denotes ' + old_alias[got].decode() + ' (now ' + new_alias[got].decode() + ')') if got else 'denotes nothing')
         return None
@@ -296,6 +319,8 @@ def renumber_evaluated(db, rule):
         [('X2', []), ('D3', ['X2', 'X1']), ('D5', ['D3', 'D1'])],
         [('X1', []), ('D2', ['X1']), ('D4', ['D2', 'D3', 'D1'])],
         [('C1', []), ('X5', ['C2']), ('C3', ['X5'])],
+        [('X1', []), ('X3', []), ('D1', {'definition': ['X1', 'X3'], 'text': ['X2'], 'convention': ['X2']})],     # X2 was left out: only texts still mention it
+        [('X1', []), ('X3', {'term': ['X2', 'X1']}), ('D1', ['X3'])],
     ]
     bad = None
     try:
